@@ -10,6 +10,7 @@ pub mod sched;
 pub mod serve;
 pub mod swaps;
 pub mod tour;
+pub mod tourx;
 pub mod trans;
 
 pub fn header(name: &str, scope: &str, seed: u64, k: u64, tier: &str) -> String {
@@ -83,6 +84,13 @@ pub fn generate(scope: &str, name: &str, seed: u64, k: u64, rng: &mut Rng, tier:
                 }
             }
         }
+        "tourx" => {
+            let inst = tourx::instance(k % tourx::NETWORKS);
+            match load_or_report(inst) {
+                Err(s) => head + &s,
+                Ok(ctx) => head + &ctx.inst.to_text() + &tourx::generate(&ctx),
+            }
+        }
         "tour" => {
             let mut p = Profile::small();
             p.non_transitive = rng.chance(35);
@@ -129,7 +137,7 @@ pub fn rerun(text: &str) -> String {
             Err(s) => head + &s,
             Ok(ctx) => head + &ctx.inst.to_text() + &trans::rerun(&ctx, text),
         },
-        "tour" => match load_or_report(inst) {
+        "tour" | "tourx" => match load_or_report(inst) {
             Err(s) => head + &s,
             Ok(ctx) => head + &ctx.inst.to_text() + &tour::rerun(&ctx, text),
         },
